@@ -371,3 +371,78 @@ func VH_C06_LimUint(nbytes int) {
 	}
 	zzvrt.Cover("ok-pow2", err == nil && n == 256 && v == 256)
 }
+
+// Reference slots and cursor: a cell with r references (r symbolic, 0..4), k of them already read
+// (k symbolic <= r) and p of its n data bits already read (symbolic): AddRef fills the first free
+// slot and refuses a fifth; NextRef hands out the references in order and then fails;
+// CopyRemaining carries exactly the unread bits and the unread references in order and leaves the
+// cursors of the source where they were; ResetCounters rewinds both cursors.
+func VH_C06_refs_cursor(n int) {
+	c := NewCell()
+	bits := make([]bool, n)
+	for i := 0; i < n; i++ {
+		bits[i] = zzvrt.NondetBool("bit")
+		_ = c.WriteBit(bits[i])
+	}
+	r := zzvrt.NondetInt("refs")
+	zzvrt.Assume(r >= 0 && r <= 4)
+	var kids [5]*Cell
+	for i := 0; i < 5; i++ {
+		kids[i] = NewCell()
+		_ = kids[i].WriteUint(uint64(i), 8)
+	}
+	for i := 0; i < 4; i++ {
+		if i < r {
+			zzvrt.Assert("add-ref-ok", c.AddRef(kids[i]) == nil)
+		}
+	}
+	zzvrt.Assert("refs-size", c.RefsSize() == r)
+	if r == 4 {
+		zzvrt.Assert("fifth-reference-refused", c.AddRef(kids[4]) != nil)
+	}
+	k := zzvrt.NondetInt("refs-read")
+	zzvrt.Assume(k >= 0 && k <= r)
+	for i := 0; i < 4; i++ {
+		if i < k {
+			ref, err := c.NextRef()
+			zzvrt.Assert("next-ref-in-order", err == nil && ref == kids[i])
+		}
+	}
+	p := zzvrt.NondetInt("bits-read")
+	zzvrt.Assume(p >= 0 && p <= n)
+	for i := 0; i < n; i++ {
+		if i < p {
+			b, err := c.ReadBit()
+			zzvrt.Assert("read-bit", err == nil && b == bits[i])
+		}
+	}
+	zzvrt.Assert("refs-available", c.RefsAvailableForRead() == r-k)
+	c2 := c.CopyRemaining()
+	zzvrt.Assert("copy-bit-count", c2.BitSize() == n-p)
+	zzvrt.Assert("copy-ref-count", c2.RefsSize() == r-k)
+	for i := 0; i < n; i++ {
+		if i < n-p {
+			b, err := c2.ReadBit()
+			zzvrt.Assert("copy-bits", err == nil && b == bits[p+i])
+		}
+	}
+	for i := 0; i < 4; i++ {
+		if i < r-k {
+			ref, err := c2.NextRef()
+			zzvrt.Assert("copy-refs-in-order", err == nil && ref == kids[k+i])
+		}
+	}
+	zzvrt.Assert("source-cursors-unchanged", c.BitsAvailableForRead() == n-p && c.RefsAvailableForRead() == r-k)
+	for i := 0; i < 4; i++ {
+		if i < r-k {
+			ref, err := c.NextRef()
+			zzvrt.Assert("source-continues", err == nil && ref == kids[k+i])
+		}
+	}
+	_, err := c.NextRef()
+	zzvrt.Assert("no-more-references", err != nil)
+	c.ResetCounters()
+	zzvrt.Assert("rewound", c.BitsAvailableForRead() == n && c.RefsAvailableForRead() == r)
+	zzvrt.Cover("four-refs", r == 4)
+	zzvrt.ObserveInt("left", c2.BitSize())
+}
